@@ -1,14 +1,16 @@
 CHECK = {
     "lean_module": "MidnightZK.Props.C06",
     "harness": "h-c06",
-    "translators": ["c06_gates"],
+    "translators": ["c06_gates", "c06_htc"],
     "level": "proof",
     "rule": "one case = one (chip, instruction, operand class, scalar class) synthesised by the real chip and "
             "checked by the real MockProver; non-trivial = every case (distinctness by hash of the request "
             "line, which carries the operand coordinates). Deliberately tight: the structural fingerprints "
             "(`fingerprint`, `shape`, `acts` lines) change under any edit that adds, drops or reorders a "
             "constraint-emitting call of an ECC instruction, including benign ones (e.g. swapping two "
-            "independent assertions); value lines do not",
+            "independent assertions); value lines do not. The `jub fingerprint map_to_curve` line and the theorem "
+            "svdw_step_kinds_agree (kinds of the numbered steps extracted from mtc_cpu.rs and mtc.rs) are tight in the same "
+            "way: renumbering the step comments or replacing an instruction by an equivalent one of another kind fires",
     "explanation": "Lean theorems over the gate polynomials dumped from the real EccChip::configure (conditional-add, "
                    "double, membership) and over the field identities the foreign slope/tangent/lambda-squared/on-curve "
                    "gates assert. Native chip: the twisted-Edwards law is proved complete AND associative (two degree-15 "
@@ -24,36 +26,73 @@ CHECK = {
                    "columns, identity flags, gate activations, activation counts) compared with the real chips on every "
                    "instruction x operand class x scalar class, including BLS12-381 curve points of order 3 and 11; "
                    "fault injection (hook H1) on advice cells and forged result points (hook ecc::foreign::verif_hooks: "
-                   "prover-chosen coordinates of a fresh point) on every exceptional operand class of add/double",
+                   "prover-chosen coordinates of a fresh point) on every exceptional operand class of add/double. "
+                   "Hash-to-curve (Jubjub): the map-to-curve parameters Z, A, B, J, K are re-parsed from mtc_params.rs on every "
+                   "run, c1..c4 recomputed and kernel-checked against their defining equations (svdw_constants_spec, "
+                   "montgomery_constants_spec) and compared with C::c1()..C::c4() of the running code; a step-by-step Lean "
+                   "mirror of the 36-step Shallue-van de Woestijne listing, the two rational maps and the cofactor clearing "
+                   "is compared with the three stages of the CPU reference (hook verif_map_to_jubjub_steps), with its final "
+                   "subgroup point, with the point returned by the real in-circuit gadget under MockProver together with the "
+                   "membership row and the double-and-add rows of clear_cofactor, and with hash_to_curve (CPU and in-circuit) "
+                   "given the two squeezed sponge outputs; the inputs include the four exceptional u (c1*u^2 = +-1, where step 6 "
+                   "inverts zero), computed independently by the harness from the running constants and by the model from the "
+                   "parsed ones, u = 0, +-1, 2, (p+-1)/2 and random ones; the CPU reference runs under catch_unwind and a panic "
+                   "or any disagreement with the circuit is a violation with the failing u. Theorems: product identity of the "
+                   "three candidates, one candidate is always a square (exceptional inputs included), the selected x has a "
+                   "square g(x) so the output lies on the curve for every u, both rational maps keep the point on the curve "
+                   "(exceptional cases of montgomery_to_edwards included), and the in-circuit gadget is deterministic "
+                   "(is_square bit forced for a non-zero argument, g(x1), g(x2) never zero on Jubjub, the two square-root "
+                   "witnesses give the same output). mul_by_constant: the digit fold is mirrored with its u128 truncation "
+                   "(mul_by_constant_digits, mul_by_constant_branch_cover) and compared at 2^64-1, 2^64, 2^64+1, 2^127, 2^127+1, "
+                   "2^128-1, 2^128, 2^128+1",
     "trusted_base": [
         "group arithmetic of midnight-curves / k256 used as reference for the expected results (cross-checked by C11)",
+        "native-field instructions used by map_to_curve (mul, mul_by_constant, add_constant, linear_combination, inv0, is_square, "
+        "sgn0, select, is_zero, assert_equal) taken at the level of the field operation they compute (C04)",
         "CRT lift of the foreign-field identities (the foreign gates are taken at the level of the field identity they assert; C05)",
         "the step from the coordinate-level theorems of the foreign chip to the abstract-group loop theorems: that the points "
         "of y^2 = x^3 + b with the chord-tangent law form a commutative group is not proved (it is for the Edwards curve)",
     ],
     "level_text": "Kernel-checked Lean theorems about the dumped gate polynomials of the native ECC chip (including "
-                  "completeness and associativity of the addition law, hence the full scalar-multiplication loop) and about "
+                  "completeness and associativity of the addition law, hence the full scalar-multiplication loop), about "
                   "the field identities and the wiring of the foreign ECC instructions with every exceptional case of "
-                  "incomplete addition classified, plus executable models checked against the real chips through MockProver "
-                  "(honest, faulted and forged witnesses) on every run",
+                  "incomplete addition classified, and about the Jubjub map-to-curve (every input lands on the curve, "
+                  "exceptional inputs included; the in-circuit gadget admits one output), plus executable models checked "
+                  "against the real chips through MockProver (honest, faulted and forged witnesses) and against the CPU "
+                  "hash-to-curve reference on every run",
     "level_note": "Partial: the completeness side conditions of the Edwards law (d non-square, -1 square) are explicit "
                   "hypotheses (Euler criterion kernel-evaluated; primality of the modulus assumed); associativity of the "
-                  "Edwards law is now proved. Foreign chip: instruction-level theorems are over the emulated-field "
+                  "Edwards law is proved. Foreign chip: instruction-level theorems are over the emulated-field "
                   "identities (C05 covers the emulation); mul_by_u128 / windowed_msm are proved over an abstract "
                   "commutative group with incomplete additions, the Weierstrass group axioms themselves are not proved; "
                   "GLV split, msm de-duplication and the lookup-based multi_select are tied by correspondence (values, "
-                  "activation counts, fingerprints) only; hash-to-curve and Jubjub (de)compression are tied to the CPU "
-                  "reference by correspondence only. Known findings (recorded, not repaired): mul_by_constant >= 2^128 on "
-                  "the identity; BLS12-381 points of small order reach incomplete_add with equal operands "
-                  "(honest proof rejected, forged result accepted)",
+                  "activation counts, fingerprints) only. Map-to-curve: the theorems are over an arbitrary field with the "
+                  "constants' equations as hypotheses (kernel-checked for Jubjub) and 'the product of two non-squares is a "
+                  "square' as an explicit hypothesis (true in every finite field, not proved here); that the CPU and "
+                  "in-circuit listings compute the modelled steps is tied by correspondence (stages, result, ECC rows, "
+                  "fingerprint, step kinds extracted from both sources), the base_field instructions themselves (mul, inv0, "
+                  "is_square, sgn0, select) are C04's; membership of the cleared point in the prime-order subgroup is checked "
+                  "by the oracle only (needs the group order); the Poseidon sponge in front of map_to_curve is C07's. Jubjub "
+                  "compression: repr_J is proved injective on curve points (repr_J_injective, repr_J_abscissa_up_to_sign) and "
+                  "the model's encoding is compared with to_bytes of the curve library on every map-to-curve output; the "
+                  "in-circuit encoder (zkir into_bytes_incircuit) and decompression are not driven by this harness. Observation (not a violation of C06 on "
+                  "Jubjub): FieldInstructions::is_square accepts both bits for the argument 0 (is_square_zero_bit_free); "
+                  "inside map_to_curve the argument is never 0 (svdw_gx_never_zero + jubjub_svdw_gx_nonzero_euler). Known "
+                  "findings (recorded, not repaired): mul_by_constant >= 2^128 on the identity; BLS12-381 points of small "
+                  "order reach incomplete_add with equal operands (honest proof rejected, forged result accepted)",
     "assumptions": [
         "primality of the native modulus (Euler criterion for d is kernel-evaluated; the step to 'd is a non-square' uses primality)",
+        "in the native field the product of two non-squares is a square (hypothesis hmul of svdw_candidates_one_is_square / "
+        "svdw_output_on_curve; holds in every finite field)",
         "the points of the emulated Weierstrass curves form a commutative group under the chord-tangent law (loop-level theorems of the foreign chip)",
         "every non-identity point handed to mul_by_u128 has no multiple m*P = O with 0 < m < 2^128 (true on secp256k1 and in the "
         "prime-order subgroup of BLS12-381 G1; false for BLS12-381 curve points of small order: recorded finding)",
     ],
     "technique": "gate ASTs dumped from configure + grind over Lean.Grind.Field (ring normaliser with computer-algebra "
                  "cofactors for associativity); induction over the rows of the mul region, over the table loop and over "
-                 "the relational double-and-add loops; counterexamples in ZMod 3",
+                 "the relational double-and-add loops; counterexamples in ZMod 3; SvdW: the product g(x1)g(x2)g(x3) "
+                 "factored by computer algebra into two halves sharing one polynomial N(w) (svdw_half12, svdw_half3), each "
+                 "re-proved by grind; Tonelli-Shanks and extended Euclid in the executable model, kernel-evaluated on the "
+                 "regenerated constants",
     "timeout": {"quick": 900, "thorough": 3000, "search": 1200},
 }
